@@ -28,9 +28,10 @@ Definition spec_results (a : AggDesc) (c : rcase) : list (option finval) :=
   spec_groupby (numpy_op a) (c_kws c) (c_mc c) (c_fill c) (c_ngroups c) (c_codes c) (c_vals c).
 
 Definition model_results (a : AggDesc) (c : rcase) : list (option finval) :=
-  match c_sizes c with
-  | [] => spec_results a c
-  | sizes =>
+  match c_sizes c, a_chunk a with
+  | [], _ => spec_results a c
+  | _, None => spec_results a c      (* blockwise-only aggregation: every block is an eager reduction *)
+  | sizes, Some _ =>
       let bs := cut_blocks sizes 0 (c_codes c) (c_vals c) in
       let t := tree_of_blocks (c_k c) bs in
       map (fun g => if c_grouped c
